@@ -68,14 +68,36 @@ Lemma ops_traced_strict :
   /\ pcms rf_ms = (3, 3) /\ sat_op_count (ext_of_gen as_written cx_segwit rf_ms) = Some 19.
 Proof. vm_compute. repeat split; reflexivity. Qed.
 
-(* ---- what is still outside: a skipped multi below a constructor without path-sensitive treatment.
-   or_b(j:multi(1,A,B,C), a:j:multi(1,D,E,F)): figure 3 keys (one side satisfied, the other skipped),
-   pcms = all-paths = 6. The statement is open there, not refuted. ---- *)
-Definition ot_open : ms := MOrB (MNonZero (MMulti 1 [0; 1; 2])) (MAlt (MNonZero (MMulti 1 [3; 4; 5]))).
+(* skipped multis below or_b / thresh / wrappers are inside: or_b(j:multi(1,A,B,C), a:j:multi(1,D,E,F)) and
+   thresh(1, j:multi(1,A,B,C), aj:multi(1,D,E,F), aj:multi(1,G,H)): figure 3 keys, all-paths bound 6 resp. 8 *)
+Definition ot_orb : ms := MOrB (MNonZero (MMulti 1 [0; 1; 2])) (MAlt (MNonZero (MMulti 1 [3; 4; 5]))).
+Definition ot_thr : ms :=
+  MThresh 1 [MNonZero (MMulti 1 [0; 1; 2]); MAlt (MNonZero (MMulti 1 [3; 4; 5])); MAlt (MNonZero (MMulti 1 [6; 7]))].
+Lemma ops_traced_orb_thresh :
+  ops_covered as_written cx_segwit ot_orb = false /\ ops_traced as_written cx_segwit ot_orb = true
+  /\ pcms ot_orb = (3, 0) /\ ast_cms ot_orb = 6
+  /\ ops_covered as_written cx_segwit ot_thr = false /\ ops_traced as_written cx_segwit ot_thr = true
+  /\ pcms ot_thr = (3, 0) /\ ast_cms ot_thr = 8.
+Proof. vm_compute. repeat split; reflexivity. Qed.
+
+(* ---- what is still outside: [pcms] takes the maximum over the alternatives of the TABLE (both operands of an
+   or, every k-subset of a thresh), ExtData only over those for which a figure exists.  A branch that is
+   statically unsatisfiable (sat_data = None, i.e. it contains `0` conjunctively) and contains a multi is
+   counted by pcms and not by the figure: or_d(pk(A), and_v(v:multi(1,B,C,D), 0)): figure 0 keys, pcms 3.
+   No table satisfaction takes that branch (all_sat of it is empty), so the statement is not refuted there;
+   it is not derived because pcms is not option-valued. ---- *)
+Definition ot_open : ms := MOrD (MCheck (MPkK 0)) (MAndV (MVerify (MMulti 1 [1; 2; 3])) MFalse).
 Lemma ops_traced_open :
-  (exists t, type_of ot_open = ROk t) /\ ops_traced as_written cx_segwit ot_open = false /\ fst (pcms ot_open) = 6
-  /\ option_map sd_eops (sat_data (ext_of_gen as_written cx_segwit ot_open)) = Some 3.
-Proof. split; [eexists; vm_compute; reflexivity|]. vm_compute. repeat split; reflexivity. Qed.
+  (exists t, type_of ot_open = ROk t) /\ ops_traced as_written cx_segwit ot_open = false /\ fst (pcms ot_open) = 3
+  /\ option_map sd_eops (sat_data (ext_of_gen as_written cx_segwit ot_open)) = Some 0
+  /\ sat_data (ext_of_gen as_written cx_segwit (MAndV (MVerify (MMulti 1 [1; 2; 3])) MFalse)) = None
+  /\ forall ke A, all_sat ke A (MAndV (MVerify (MMulti 1 [1; 2; 3])) MFalse) = [].
+Proof.
+  split; [eexists; vm_compute; reflexivity|]. split; [vm_compute; reflexivity|]. split; [vm_compute; reflexivity|].
+  split; [vm_compute; reflexivity|]. split; [vm_compute; reflexivity|].
+  intros ke A. rewrite (sat_and_v ke A). change (all_sat ke A MFalse) with (@nil wit).
+  unfold cross. induction (all_sat ke A (MVerify (MMulti 1 [1; 2; 3]))) as [|a l0 IH]; [reflexivity|exact IH].
+Qed.
 
 (* ---- non-vacuity: a concrete world (DescSpendExamples: key 0 signs), a script outside ops_covered with
    multi under or_i and under thresh; all hypotheses hold, the satisfier returns a witness, and the run
